@@ -205,6 +205,15 @@ def _work_misc(task):
     if kind == "nest":
         # every spelling of a letter run around the registered function names, in call-like positions:
         # the tokenizer's function table and the parser's lookup must agree
+        # literals far beyond the float range, and very long inputs
+        longs = ["1" * 400, "1" * 400 + ".", "18" + "0" * 307 + ".", "1" * 400 + ".5", "0." + "0" * 400 + "1", "1" * 400 + "x",
+                 "x^" + "9" * 400, "1" * 400 + " + " + "1" * 400 + ".0", "2^" + "1" * 20, "x" * 300, " + ".join(["x"] * 150), "(" * 150 + "x" + ")" * 150]
+        for text in longs:
+            acc.count("parses")
+            acc.count("long_input_cases")
+            for k, detail in check_parse(text):
+                acc.violation(f"{k}|long-input|{text[:10]!r}..x{len(text)}", {"part": "A", "text": text, "kind": k, "sep": "", "long": True},
+                              f"input of {len(text)} characters: {detail[:160]}")
         for f in SPELLINGS:
             for tpl in SPELL_TEMPLATES:
                 text = tpl.format(f=f)
@@ -241,7 +250,14 @@ def run(tier, seed):
     for t in STICKY:
         fresh(t)
     a3 = merge_all(par.pmap(_work_sticky, H.tasks(len(STICKY), D, parts=64)))
-    acc = merge_all([a1, a2, a3])
+    # a long session of parse calls on one parser (failures every 9th call): no internal error, same answers as fresh
+    from . import c12
+    a4 = Acc()
+    NS = 2500 if tier == "quick" else 10000
+    a4.count("session_calls", NS)
+    for core, detail in c12.check_session(NS, "parse"):
+        a4.violation(core.replace("long-session", "sticky-long-session"), {"part": "S", "session": NS}, detail)
+    acc = merge_all([a1, a2, a3, a4])
     cov = {
         "states": a3.n["histories"] + a1.n["parses"] + a2.n["parses"],
         "transitions": a3.n["steps"] + a1.n["parses"] + a2.n["parses"],
@@ -264,6 +280,12 @@ def run(tier, seed):
 
 def replay(case):
     watchdog.install()
+    if case["part"] == "A" and case.get("long"):
+        text = case["text"]
+        return [(f"{k}|long-input|{text[:10]!r}..x{len(text)}", d[:160]) for k, d in check_parse(text) if k == case["kind"]]
+    if case["part"] == "S":
+        from . import c12
+        return [(c.replace("long-session", "sticky-long-session"), d) for c, d in c12.check_session(case["session"], "parse")]
     if case["part"] == "A":
         sep = case["sep"]
         out = []
